@@ -448,6 +448,9 @@ def run(ctx: Ctx) -> Report:
     total = rep.evaluations + rep.filtered
     if total and rep.filtered > 0.05 * total:
         raise HarnessError(f"generator rejected {rep.filtered} of {total} cases (> 5 %)")
+    n_exc = rep.labels.get("python-exception", 0)
+    if n_exc:
+        rep.inconclusive.append(f"{n_exc} case(s) raised a Python exception while executing and were not judged")
     for need in ("kind:single", "kind:other", "kind:pair"):
         if not rep.labels.get(need):
             raise HarnessError(f"no cases of {need} were generated")
